@@ -876,19 +876,47 @@ func findTotpGate(c *km.Ctx, vt *ssa.Function) *totpGate {
 	}
 	for _, fn := range cands {
 		g := &totpGate{fn: fn}
+		var lookups []*ssa.Lookup
+		type spIf struct {
+			iff *ssa.If
+			d   int64
+		}
+		var spacings []spIf
 		km.Instrs(fn, func(in ssa.Instruction) {
-			if lk, ok := in.(*ssa.Lookup); ok && mentionsField(lk.X, "totpLocalRateLimit") && g.lookup == nil {
-				g.lookup = lk
+			if lk, ok := in.(*ssa.Lookup); ok && mentionsField(lk.X, "totpLocalRateLimit") {
+				lookups = append(lookups, lk)
 			}
 			if mu, ok := in.(*ssa.MapUpdate); ok && mentionsField(mu.Map, "totpLocalRateLimit") && g.firstUpdate == nil {
 				g.firstUpdate = mu
 			}
-			if iff, ok := in.(*ssa.If); ok && g.spacingIf == nil {
+			if iff, ok := in.(*ssa.If); ok {
 				if d, ok := spacingTest(iff.Cond); ok {
-					g.spacingIf, g.spacingConst = iff, d
+					spacings = append(spacings, spIf{iff, d})
 				}
 			}
 		})
+		// the lookup that belongs to the update: the closest one that dominates it (an earlier read-only peek
+		// that admits nothing is not the gate)
+		for _, lk := range lookups {
+			if g.firstUpdate != nil && !km.InstrDominates(lk, g.firstUpdate) {
+				continue
+			}
+			if g.lookup == nil || km.InstrDominates(g.lookup, lk) {
+				g.lookup = lk
+			}
+		}
+		if g.lookup == nil && len(lookups) > 0 {
+			g.lookup = lookups[0]
+		}
+		for _, sp := range spacings {
+			if g.lookup != nil && g.firstUpdate != nil && km.InstrDominates(g.lookup, sp.iff) && km.InstrDominates(sp.iff, g.firstUpdate) {
+				g.spacingIf, g.spacingConst = sp.iff, sp.d
+				break
+			}
+		}
+		if g.spacingIf == nil && len(spacings) > 0 {
+			g.spacingIf, g.spacingConst = spacings[0].iff, spacings[0].d
+		}
 		if g.lookup != nil && g.firstUpdate != nil {
 			return g
 		}
